@@ -101,6 +101,7 @@ BlockAppendProblems(e, g, g2) ==
   ELSE P(~pre, "err-but-precondition-true") \o P(g2 = g, "changed-behind-err")
 
 \* insert: find the renaming; the order-preserving one first, any other bijection otherwise
+\* (exhaustive search only for <= 6 inserted blocks: 6^6 candidates)
 RECURSIVE SortedSeq(_)
 SortedSeq(S) == IF S = {} THEN <<>>
                 ELSE LET m == CHOOSE x \in S : \A y \in S : x <= y IN <<m>> \o SortedSeq(S \ {m})
@@ -118,7 +119,8 @@ InsertProblems(e, g, g2) ==
                      sn == SortedSeq(new)
                      m0 == [x \in old |-> sn[CHOOSE j \in 1..Len(so) : so[j] = x]] IN
                  P(\/ InsertMatches(g, h, g2, m0, e.res.ok)
-                   \/ \E m \in [old -> new] : InsertMatches(g, h, g2, m, e.res.ok), "effect")
+                   \/ (Cardinality(old) <= 6 /\ \E m \in [old -> new] : InsertMatches(g, h, g2, m, e.res.ok)),
+                   "effect")
   ELSE P(~pre, "err-but-precondition-true") \o P(g2 = g, "changed-behind-err")
 
 AppendProblems(e, g, g2, evaluable) ==
